@@ -515,9 +515,10 @@ func (e *Engine) enterBlock(st *State, b *ssa.BasicBlock) {
 		isBack := li.isBackEdge(from, b)
 		spec := e.loopSpec(fr, hdr)
 		if spec == nil || (len(spec.Invs) == 0 && spec.Unroll == 0) {
+			// reported as an undecided obligation of the function; exploration goes on with the weakest cut (invariant
+			// "true", everything the loop may write havocked) so that obligations behind the loop are still generated
 			e.unsupported("loop %d of %s has no invariant", hdr.ord, fr.fn.String())
-			st.dead = true
-			return
+			spec = &LoopSpec{Ord: hdr.ord}
 		}
 		if spec.Unroll > 0 {
 			e.boundedLoops[fmt.Sprintf("%s loop %d", fr.fn.String(), hdr.ord)] = spec.Unroll
